@@ -369,6 +369,15 @@ func replay(path string) {
 		if len(r.Violations) > 0 {
 			v = &r.Violations[0]
 		}
+	case a.Sub == "writer-pool":
+		var c poolCase
+		if err := json.Unmarshal(a.Replay, &c); err != nil {
+			fmt.Println(err)
+			os.Exit(2)
+		}
+		if o, bad := runPoolCase(c); bad != "" {
+			v = &core.Violation{Signature: "C12/writer-pool/" + o, Sub: a.Sub, What: bad, Replay: c}
+		}
 	case strings.HasPrefix(a.Sub, "liveness"):
 		var r struct {
 			Program string `json:"program"`
